@@ -20,7 +20,7 @@ func init() {
 // allocfault: the fault scenario alone (run by the checks of C01, C02, C03, C09 and C10: a lock left behind by a
 // failed first use stops the delivery of every metric of that scope)
 func suiteAllocFault(c *Ctx) {
-	c.Cov.Rule = "a cached reporter whose Allocate call panics once for one name (the Prometheus reporter does that on a registration conflict unless told otherwise), the application recovers; for each metric kind, on the root and on a subscope: a later first use of another name, recording, a report pass and the root's Close must complete within 2 s (watchdog), and what was recorded on the second name must be delivered; plus a SLOW allocation: a first use of a new histogram name parked inside AllocateHistogram while the scope's final report runs (collection of the closed scope, or the root's Close): the samples recorded on an already registered histogram of that scope must be delivered; every case nontrivial"
+	c.Cov.Rule = "a cached reporter whose Allocate call panics once for one name (the Prometheus reporter does that on a registration conflict unless told otherwise), the application recovers; for each metric kind, on the root and on a subscope: a later first use of another name, recording, a report pass and the root's Close must complete within 8 s (watchdog), and what was recorded on the second name must be delivered; plus a SLOW allocation: a first use of a new histogram name parked inside AllocateHistogram while the scope's final report runs (collection of the closed scope, or the root's Close): the samples recorded on an already registered histogram of that scope must be delivered; and, per kind, a second thread asking for the name whose first use is parked inside Allocate, plus a pass: nothing half-built is handed out or reported (no panic, one Allocate, the second thread's recording delivered); every case nontrivial"
 	for _, kind := range []string{"counter", "gauge", "timer", "histogram"} {
 		for _, onSub := range []bool{false, true} {
 			c09AllocFault(c, kind, onSub)
@@ -28,6 +28,9 @@ func suiteAllocFault(c *Ctx) {
 	}
 	c09SlowAlloc(c, false)
 	c09SlowAlloc(c, true)
+	for _, kind := range []string{"counter", "gauge", "timer", "histogram"} {
+		c09SlowFirstUse(c, kind)
+	}
 	c.Cov.Traces = c.Cov.Evaluations
 }
 
@@ -306,8 +309,13 @@ func c09AllocFault(c *Ctx, kind string, onSub bool) {
 	}
 	line := fmt.Sprintf("cached reporter whose Allocate panics for the name boom; %s first use on %s, recovered; then a first use of another name, a report pass, Close", kind, map[bool]string{false: "the root", true: "a subscope"}[onSub])
 	if p, _ := catch(func() { use("boom") }); !p {
-		c.Cov.Fail(Failure{Kind: "bad-op", Clause: "harness", Signature: "c09-alloc-fault-not-injected", Line: line})
-		return
+		// the library swallowed the reporter's panic and handed out a metric all the same: whatever it is, recording on
+		// it (done by use) and reporting it must not crash
+		if pp, pv := catch(func() { tally.VerifReportOnce(root) }); pp {
+			c.Cov.Fail(Failure{Kind: "crash", Clause: "no-panic", Signature: "c09-half-built-metric-after-refused-allocation", Line: line,
+				Reply: fmt.Sprintf("the reporter's Allocate panicked, the first use returned normally, and the next report pass panicked: %v", pv)})
+			return
+		}
 	}
 	done := make(chan interface{}, 1)
 	go func() {
@@ -338,9 +346,9 @@ func c09AllocFault(c *Ctx, kind string, onSub bool) {
 			c.Cov.Fail(Failure{Kind: "crash", Clause: "no-panic", Signature: "c09-panic-after-recovered-allocation-panic", Line: line, Reply: fmt.Sprint(v)})
 			return
 		}
-	case <-time.After(2 * time.Second):
+	case <-time.After(8 * time.Second): // generous: a starved machine must not look like a deadlock
 		c.Cov.Fail(Failure{Kind: "crash", Clause: "no-deadlock", Signature: "c09-lock-held-after-allocation-panic", Line: line,
-			Reply: "the scope is stuck 2s after the recovered panic: a lock taken by the failed registration is still held"})
+			Reply: "the scope is stuck 8 s after the recovered panic: a lock taken by the failed registration is still held"})
 		return
 	}
 	c.Cov.Hit("alloc-fault." + kind)
@@ -405,6 +413,93 @@ func c09SlowAlloc(c *Ctx, viaRootClose bool) {
 			Reply: fmt.Sprintf("2 samples were recorded on s.h1 before the final report of s; %d were delivered", n)})
 	}
 	c.Cov.Hit(fmt.Sprintf("slow-alloc.root-close=%v", viaRootClose))
+	c.Cov.Eval(line, true)
+	c.Cov.Schedules++
+}
+
+// c09SlowFirstUse: thread A's first use of a name is parked INSIDE the cached reporter's Allocate call (the object is
+// being built); thread B then asks for the same name and records through what it gets; a report pass runs.  Nothing
+// may be handed out or reported half-built: B and the pass either wait for A or see nothing of the name yet.  Afterwards:
+// no panic anywhere, one Allocate for the name, and what B recorded is delivered.
+func c09SlowFirstUse(c *Ctx, kind string) {
+	rc := newRecCached()
+	rc.log.Pre = func(e *Ev) {
+		if strings.HasPrefix(e.Kind, "alloc") && strings.HasSuffix(e.Name, "slow") {
+			hook("rep.alloc-slow", "")
+		}
+	}
+	root, closer := tally.VerifNewRootScope(tally.ScopeOptions{CachedReporter: rc, OmitCardinalityMetrics: true}, 0, 1)
+	sc := root.SubScope("s")
+	use := func(record bool) {
+		switch kind {
+		case "counter":
+			m := sc.Counter("slow")
+			if record {
+				m.Inc(7)
+			}
+		case "gauge":
+			m := sc.Gauge("slow")
+			if record {
+				m.Update(7)
+			}
+		case "timer":
+			m := sc.Timer("slow")
+			if record {
+				m.Record(7)
+			}
+		default:
+			m := sc.Histogram("slow", tally.ValueBuckets{1, 2})
+			if record {
+				m.RecordValue(1.5)
+			}
+		}
+	}
+	s := NewSched(nil)
+	s.ParkOnT = func(th, l string) bool { return th == "A" && l == "rep.alloc-slow" }
+	s.Timeout = 150 * time.Millisecond
+	var pans [3]interface{}
+	A := s.Spawn("A", func() { _, pans[0] = catch(func() { use(false) }) })
+	l0 := runUntil(s, A, func(l, _ string) bool { return l == "rep.alloc-slow" })
+	trace := []string{"A: first use of s.slow (" + kind + ") parked inside Allocate (" + l0 + ")"}
+	B := s.Spawn("B", func() { _, pans[1] = catch(func() { use(true) }) })
+	l1 := runUntil(s, B, never)
+	trace = append(trace, "B: same name, records: "+l1)
+	P := s.Spawn("P", func() { _, pans[2] = catch(func() { tally.VerifReportOnce(root) }) })
+	l2 := runUntil(s, P, never)
+	trace = append(trace, "P: report pass: "+l2)
+	trace = append(trace, "A "+runUntil(s, A, never))
+	for _, t := range []*Thr{B, P} {
+		if !t.Done {
+			l, _ := s.Step(t)
+			trace = append(trace, t.Name+" "+l)
+		}
+	}
+	s.Finish()
+	line := strings.Join(trace, " | ")
+	for i, v := range pans {
+		if v != nil {
+			c.Cov.Fail(Failure{Kind: "crash", Clause: "no-panic", Signature: "c09-half-built-metric-" + kind, Line: line,
+				Reply: fmt.Sprintf("thread %s panicked: %v", []string{"A", "B", "P"}[i], v)})
+			return // locks may be left behind: the root is abandoned
+		}
+	}
+	tally.VerifReportOnce(root)
+	closer.Close()
+	allocs, delivered := 0, int64(0)
+	for _, e := range rc.log.Snapshot() {
+		if strings.HasPrefix(e.Kind, "alloc") && strings.HasSuffix(e.Name, "slow") {
+			allocs++
+		}
+		if (e.Kind == "counter" || e.Kind == "gauge" || e.Kind == "timer" || e.Kind == "samples") && strings.HasSuffix(rc.Meta[e.ID].Name, "slow") {
+			delivered++
+		}
+	}
+	if allocs != 1 {
+		c.Cov.Fail(Failure{Kind: "violated", Clause: "allocate-at-most-once", Signature: "c09-half-built-metric-" + kind, Line: line, Reply: fmt.Sprintf("%d Allocate calls for s.slow", allocs)})
+	} else if delivered == 0 {
+		c.Cov.Fail(Failure{Kind: "violated", Clause: "recorded-is-delivered", Signature: "c09-half-built-metric-" + kind, Line: line, Reply: "what B recorded on s.slow was never delivered"})
+	}
+	c.Cov.Hit("slow-first-use." + kind)
 	c.Cov.Eval(line, true)
 	c.Cov.Schedules++
 }
